@@ -394,13 +394,14 @@ fn format_volume(dev: &SparseDev, spec: &J, vals: &mut Vals, rule: &mut DefaultR
         bs[50..52].copy_from_slice(&bk.to_le_bytes());
         bs[64] = 0x80;
         bs[66] = 0x29;
-        bs[67..71].copy_from_slice(&0x1234_5678u32.to_le_bytes());
+        bs[67..71].copy_from_slice(&(ju(spec, "serial", 0x1234_5678) as u32).to_le_bytes());
         bs[71..82].copy_from_slice(&lab);
         bs[82..90].copy_from_slice(b"FAT32   ");
     } else {
         bs[36] = 0x80;
         bs[38] = 0x29;
-        bs[39..43].copy_from_slice(&0x1234_5678u32.to_le_bytes());
+        // (bytes 40..42 would be the FAT32 "extended flags" - FAT mirroring - if this were a FAT32 volume: here they are serial number)
+        bs[39..43].copy_from_slice(&(ju(spec, "serial", 0x1234_5678) as u32).to_le_bytes());
         bs[43..54].copy_from_slice(&lab);
         bs[54..62].copy_from_slice(b"FAT16   ");
     }
